@@ -18,6 +18,8 @@
 //!   unkeq|unkccmp <rtype> <data> <rtype> <data>       ZoneRecordData::Unknown ==, canonical_cmp
 //!   ipsec <prec> <alg> <gateway wire> <key> (x2)      Ipseckey::canonical_cmp, name gateway
 //!   alleq <rtype> <data> <rtype> <data>, alleqopt <opts> <opts>   AllRecordData ==
+//!   hdr <owner> <rtype> <class> <ttl> <rdlen> (x2)     RecordHeader: `<==> <cmp>`
+//!   rdx <rtype> <field values> | <field values>      typed record data: `<==> <canonical_cmp> <hash tokens>`
 //!   ipsechash <prec> <alg>                            hashing an IPSECKEY without gateway: Ok|Panic
 //! Results: `Ok <v>` or `Panic`.
 use bytes::Bytes;
@@ -55,6 +57,20 @@ impl Hasher for RecHasher {
     fn finish(&self) -> u64 { 0 }
     fn write(&mut self, b: &[u8]) { self.0.extend_from_slice(b) }
 }
+/// Hasher recording the calls as tokens: b.. write_u8, w.... write_u16,
+/// d........ write_u32, n<dec> write_usize (slice length prefix), r<hex> raw write
+#[derive(Default)]
+struct TokHasher(Vec<String>);
+impl Hasher for TokHasher {
+    fn finish(&self) -> u64 { 0 }
+    fn write(&mut self, b: &[u8]) { self.0.push(format!("r{}", hex(b))) }
+    fn write_u8(&mut self, i: u8) { self.0.push(format!("b{:02x}", i)) }
+    fn write_u16(&mut self, i: u16) { self.0.push(format!("w{:04x}", i)) }
+    fn write_u32(&mut self, i: u32) { self.0.push(format!("d{:08x}", i)) }
+    fn write_u64(&mut self, i: u64) { self.0.push(format!("q{:016x}", i)) }
+    fn write_usize(&mut self, i: usize) { self.0.push(format!("n{}", i)) }
+}
+fn toks<T: Hash + ?Sized>(x: &T) -> String { let mut h = TokHasher::default(); x.hash(&mut h); if h.0.is_empty() { "-".into() } else { h.0.join(",") } }
 fn feed<T: Hash + ?Sized>(x: &T) -> Vec<u8> { let mut h = RecHasher::default(); x.hash(&mut h); h.0 }
 
 fn ord(o: Ordering) -> &'static str { match o { Ordering::Less => "Lt", Ordering::Equal => "Eq", Ordering::Greater => "Gt" } }
@@ -85,6 +101,17 @@ fn gen_name(r: &mut Rng) -> Labels {
         let l = gen_label(r);
         n.push(l);
         if !valid(&n) { n.pop(); break; }
+    }
+    if r.chance(1, 25) {
+        // exactly the maximal length: 255 octets with the root label
+        loop {
+            let used = wire_rel(&n).len();
+            if used >= 254 { break; }
+            let room = 254 - used;
+            if room == 1 { if let Some(l) = n.iter_mut().find(|l| l.len() < 63) { l.push(gen_octet(r)); } else { break; } }
+            else { let len = std::cmp::min(63, room - 1); n.push((0..len).map(|_| gen_octet(r)).collect()); }
+        }
+        debug_assert!(valid(&n));
     }
     n
 }
@@ -155,8 +182,19 @@ fn parsed_msg(r: &mut Rng, n: &Labels, k: usize) -> (Vec<u8>, usize) {
     let mut m = r.bytes(12);
     if r.chance(1, 3) { m.extend_from_slice(&[3, b'x', b'y', b'z', 0]); }
     if k >= n.len() { let pos = m.len(); m.extend_from_slice(&wire_abs(n)); m.extend_from_slice(&r.bytes(2)); return (m, pos); }
-    let off = m.len();
-    m.extend_from_slice(&wire_abs(&n[k..].to_vec()));
+    let mut off = m.len();
+    let rest = n[k..].to_vec();
+    if rest.len() >= 2 && r.chance(1, 3) {
+        // two hops: the suffix itself ends in a pointer to its own suffix stored earlier
+        let j = r.range(1, rest.len() as u64 - 1) as usize;
+        let off2 = m.len();
+        m.extend_from_slice(&wire_abs(&rest[j..].to_vec()));
+        off = m.len();
+        m.extend_from_slice(&wire_rel(&rest[..j].to_vec()));
+        m.push(0xC0 | (off2 >> 8) as u8); m.push(off2 as u8);
+    } else {
+        m.extend_from_slice(&wire_abs(&rest));
+    }
     if r.chance(1, 2) { m.extend_from_slice(&r.bytes(3)); }
     let pos = m.len();
     m.extend_from_slice(&wire_rel(&n[..k].to_vec()));
@@ -480,6 +518,7 @@ fn gen_f(r: &mut Rng, k: &str) -> F {
         "pfx1" => F::Pfx(gen_small(r, 1, 5)),
         "tail" => F::Tail(gen_small(r, 0, 6), 0),
         "tail1" => F::Tail(gen_small(r, 1, 6), 1),
+        "tail12" => F::Tail(gen_small(r, 12, 15), 12),
         "bitmap" => F::Bitmap(gen_types(r)),
         "tag" => { let n = r.range(1, 5) as usize; F::Tag((0..n).map(|_| *r.pick(b"issuewildIODEF0129aAzZ")).collect()) }
         "gw" => F::Gw(r.below(4) as u8, r.range(1, 2) as u8, r.bytes(16), gen_name(r)),
@@ -524,10 +563,12 @@ const TYPES: &[(u16, &str, &[&str])] = &[
     (46, "rrsig", &["u16", "u8", "u8", "u32", "u32", "u32", "u16", "name", "tail"]), (47, "nsec", &["name", "bitmap"]),
     (50, "nsec3", &["u8", "u8", "u16", "pfx", "pfx1", "bitmap"]), (51, "nsec3param", &["u8", "u8", "u16", "pfx"]),
     (52, "tlsa", &["u8", "u8", "u8", "tail"]), (44, "sshfp", &["u8", "u8", "tail"]), (257, "caa", &["u8", "tag", "tail"]),
-    (35, "naptr", &["u16", "u16", "str", "str", "str", "name"]), (61, "openpgpkey", &["tail"]), (63, "zonemd", &["u32", "u8", "u8", "tail"]),
+    (35, "naptr", &["u16", "u16", "str", "str", "str", "name"]), (61, "openpgpkey", &["tail"]), (63, "zonemd", &["u32", "u8", "u8", "tail12"]),
     (45, "ipseckey", &["u8", "gw", "tail1"]), (64, "svcb", &["u16", "name", "params"]), (65, "svcb", &["u16", "name", "params"]), (65280, "unknown", &["tail"]), (65281, "unknown", &["tail"]),
 ];
 
+/// record types of the T1 table rd_table (typed model)
+const TABLE_TYPES: [u16; 19] = [15, 6, 33, 13, 14, 17, 52, 44, 63, 43, 59, 48, 60, 46, 47, 50, 51, 257, 35];
 type ZD = ZoneRecordData<Bytes, ParsedName<Bytes>>;
 fn rd_wire(fs: &[F]) -> Vec<u8> { let mut v = vec![]; for f in fs { f_wire(f, &mut v); } v }
 fn parse_rd(rtype: u16, w: &[u8]) -> Option<ZD> {
@@ -570,6 +611,20 @@ fn rdata_cases(out: &mut Out, r: &mut Rng, n: u64) {
         let (x, y) = match (parse_rd(rt, &wx), parse_rd(rt, &wy)) { (Some(x), Some(y)) => (x, y), _ => { out.count("rdata_unparseable"); continue; } };
         out.oracle_case(&c, wx != wy, &format!("rdata_{}", tname));
         rdata_pair(out, tname, rt, &x, &y, &c);
+        // T2: ==, canonical_cmp and the Hasher tokens of typed values (types of the T1 table)
+        if TABLE_TYPES.contains(&rt) && i % 2 == 1 {
+            let val = |f: &F| -> String { match f {
+                F::U8(x) => format!("{}", x), F::U16(x) => format!("{}", x), F::U32(x) => format!("{}", x),
+                F::Name(n) => hex(&wire_abs(n)), F::Str(v) | F::Pfx(v) | F::Tag(v) | F::Tail(v, _) | F::Fixed(v) => hex(v),
+                F::Bitmap(ts) => hex(&bitmap_wire(ts)), _ => "?".into() } };
+            let va: Vec<String> = fs.iter().map(val).collect();
+            let vb: Vec<String> = gs.iter().map(val).collect();
+            let t2 = format!("rdx {} {} | {}", rt, va.join(" "), vb.join(" "));
+            let (x2, y2) = (x.clone(), y.clone());
+            if let Ok(obs) = catch(move || format!("{} {} {}", x2 == y2, ord(x2.canonical_cmp(&y2)), toks(&x2))) {
+                out.case(&t2, &obs, wx != wy, "rdx");
+            }
+        }
         // the same octets through AllRecordData's dispatch
         if i % 4 == 0 {
             let (bx, by) = (Bytes::copy_from_slice(&wx), Bytes::copy_from_slice(&wy));
@@ -691,6 +746,13 @@ fn record_cases(out: &mut Out, r: &mut Rng, n: u64) {
                         RecordHeader::new(flat(&ob), Rtype::from_int(rtb), Class::from_int(cb), Ttl::from_secs(tb), wy.len() as u16));
         chk(out, !(h1 == h2) || feed(&h1) == feed(&h2), "header_eq_hash", &c, "");
         chk(out, (h1 == h2) == (h2 == h1) && (h1.cmp(&h2) == Ordering::Equal) == (h1 == h2) && h1.cmp(&h2) == h2.cmp(&h1).reverse(), "header_cmp_eq", &c, "");
+        chk(out, h1.partial_cmp(&h2) == Some(h1.cmp(&h2)), "header_partial_cmp", &c, "");
+        {
+            let want = rfc_name_cmp(&oa, &ob).then(rt.cmp(&rtb)).then(ca.cmp(&cb)).then(ta.cmp(&tb)).then((wx.len() as u16).cmp(&(wy.len() as u16)));
+            chk(out, h1.cmp(&h2) == want, "header_order", &c, &format!("{} want {}", ord(h1.cmp(&h2)), ord(want)));
+            let t2 = format!("hdr {} {} {} {} {} {} {} {} {} {}", hex(&wire_abs(&oa)), rt, ca, ta, wx.len(), hex(&wire_abs(&ob)), rtb, cb, tb, wy.len());
+            out.case(&t2, &format!("{} {}", h1 == h2, ord(h1.cmp(&h2))), true, "hdr");
+        }
         // T2: the record order with opaque record data
         if i % 2 == 0 {
             let (da, db) = (gen_small(r, 0, 4), if r.chance(1, 2) { wx.iter().take(3).cloned().collect() } else { gen_small(r, 0, 4) });
@@ -717,6 +779,16 @@ fn record_cases(out: &mut Out, r: &mut Rng, n: u64) {
                 if let Ok(Some(mbytes)) = built {
                     if let Ok(msg) = Message::from_octets(mbytes.clone()) {
                         let recs: Vec<Record<ParsedName<Bytes>, ZD>> = msg.answer().unwrap().filter_map(|rr| rr.ok()).filter_map(|rr| rr.to_record::<ZD>().ok().flatten()).collect();
+                        // ParsedRecord: == is reflexive, symmetric, and equal ParsedRecords parse to equal records
+                        {
+                            let prs: Vec<_> = msg.answer().unwrap().filter_map(|rr| rr.ok()).collect();
+                            if prs.len() == 2 {
+                                let c2 = format!("{} via {}", c, hex(&mbytes));
+                                let (p0, p1) = (&prs[0], &prs[1]);
+                                chk(out, p0 == p0 && p1 == p1 && (p0 == p1) == (p1 == p0), "parsed_record_eq_equiv", &c2, "");
+                                if p0 == p1 { chk(out, eq, "parsed_record_eq_implies_record_eq", &c2, ""); }
+                            }
+                        }
                         if recs.len() == 2 {
                             let c2 = format!("{} via {}", c, hex(&mbytes));
                             let (q0, q1, ra2, rb2) = (recs[0].clone(), recs[1].clone(), ra.clone(), rb.clone());
@@ -814,6 +886,40 @@ fn svcb_cases(out: &mut Out, r: &mut Rng, n: u64) {
             out.case(&c, &format!("{}", x == y), true, "alleqopt");
             chk(out, x == x.clone() && y == y.clone(), "all_record_data_eq_not_reflexive", &c, "AllRecordData::Opt value is not equal to itself");
         }
+    }
+    // TSIG and OPT (pseudo record types) through AllRecordData: canonical order against the canonical form
+    for i in 0..n {
+        let (rt, wx, wy) = if i % 3 == 0 {
+            let o1: Vec<u8> = (0..r.below(3)).flat_map(|_| { let v = gen_small(r, 0, 3); let mut w = vec![0, r.range(8, 12) as u8, 0, v.len() as u8]; w.extend_from_slice(&v); w }).collect();
+            let o2 = if r.chance(1, 3) { o1.clone() } else { near_octets(r, &o1, 0, 40) };
+            (41u16, o1, o2)
+        } else {
+            let tsig = |alg: &Labels, time: u64, fudge: u16, mac: &Vec<u8>, id: u16, err: u16, other: &Vec<u8>| { let mut v = wire_abs(alg);
+                v.extend_from_slice(&time.to_be_bytes()[2..]); v.extend_from_slice(&fudge.to_be_bytes()); v.extend_from_slice(&(mac.len() as u16).to_be_bytes()); v.extend_from_slice(mac);
+                v.extend_from_slice(&id.to_be_bytes()); v.extend_from_slice(&err.to_be_bytes()); v.extend_from_slice(&(other.len() as u16).to_be_bytes()); v.extend_from_slice(other); v };
+            let alg = gen_name(r); let time = r.next() >> 16; let fudge = r.u16(); let mac = gen_small(r, 0, 4); let id = r.u16(); let err = r.below(20) as u16; let other = gen_small(r, 0, 3);
+            let w1 = tsig(&alg, time, fudge, &mac, id, err, &other);
+            let w2 = match r.below(8) { 0 => w1.clone(), 1 => tsig(&near_name(r, &alg), time, fudge, &mac, id, err, &other), 2 => tsig(&alg, time ^ (1 << r.below(48)), fudge, &mac, id, err, &other),
+                3 => tsig(&alg, time, fudge.wrapping_add(1), &mac, id, err, &other), 4 => tsig(&alg, time, fudge, &near_octets(r, &mac, 0, 300), id, err, &other),
+                5 => tsig(&alg, time, fudge, &mac, id.swap_bytes(), err, &other), 6 => tsig(&alg, time, fudge, &mac, id, err ^ 1, &other), _ => tsig(&alg, time, fudge, &mac, id, err, &near_octets(r, &other, 0, 300)) };
+            (250u16, w1, w2)
+        };
+        let tname = if rt == 41 { "opt" } else { "tsig" };
+        if let (Some(x), Some(y)) = (parse_ad(rt, &wx), parse_ad(rt, &wy)) {
+            let c = format!("ad {} {} {}", rt, hex(&wx), hex(&wy));
+            out.begin(&c);
+            out.oracle_case(&c, wx != wy, &format!("rdata_{}", tname));
+            match catch(move || (x.canonical_cmp(&y), y.canonical_cmp(&x), x == y, y == x, x.cmp(&y), canon_rd(&x), canon_rd(&y), feed(&x), feed(&y))) {
+                Err(e) => chk(out, false, &format!("rdata_panic_{}", tname), &c, &e),
+                Ok((cc, ccr, eq, eqr, cm, bx, by, hx, hy)) => {
+                    chk(out, cc == bx.cmp(&by), &format!("canonical_cmp_not_bytewise_{}", tname), &c, &format!("{} but {} vs {}", ord(cc), hex(&bx), hex(&by)));
+                    chk(out, cc == ccr.reverse(), &format!("canonical_cmp_antisym_{}", tname), &c, "");
+                    chk(out, eq == eqr, &format!("rdata_eq_sym_{}", tname), &c, "");
+                    chk(out, !eq || hx == hy, &format!("eq_hash_{}", tname), &c, "");
+                    chk(out, (cm == Ordering::Equal) == eq, &format!("cmp_eq_inconsistent_{}", tname), &c, &format!("eq={} cmp={}", eq, ord(cm)));
+                }
+            }
+        } else { out.count("ad_unparseable"); }
     }
     for _ in 0..n / 2 {
         let d1 = gen_small(r, 0, 3);
